@@ -133,7 +133,23 @@ def _attach(case, sub, obj, divisor):
     dev = mk_device(dict(sub, flavour=case["flavour"]))
     clock = L.FakeClock()
     tk = dict(cuts=mk_cuts(sub["cuts"]), on_empty=sub.get("on_empty", "stall"), clock=clock, dts=sub.get("dts", ()),
-              eof=sub.get("eof", "raise"), budget=sub.get("budget", 12), err_at=sub.get("err_at", ()))
+              eof=sub.get("eof", "raise"), budget=sub.get("budget", 12), err_at=sub.get("err_at", ()),
+              lag_at={int(k): v for k, v in (sub.get("lag_at") or {}).items()})
+    # what the device printed on connect and in reaction to every write (for the closed-system model `sysRunI`)
+    dev.g0, dev.reacts = None, []
+    _c, _w = dev.connect, dev.on_write
+
+    def _connect():
+        out = _c()
+        dev.g0 = out if dev.g0 is None else dev.g0 + out
+        return out
+
+    def _on_write(data):
+        st = dev.state
+        out = _w(data)
+        dev.reacts.append((st, bytes(data), bytes(out)))
+        return out
+    dev.connect, dev.on_write = _connect, _on_write
     t = (L.LoginSimTransport if sync else L.AsyncLoginSimTransport)(targs, dev, **tk)
     ch.transport = t
     if conn is not None:
@@ -152,7 +168,8 @@ def _collect(case, dev, t, exc):
         elif ev[0] == "W":
             writes.append((n, ev[1]))
     return dict(outcome=_outcome(exc), writes=writes, tape=list(t.tape), wlog=list(dev.wlog), lines=list(dev.lines),
-                spans=list(dev.spans), accepted=dev.accepted, closed=dev.closed, cleaned=cleaned_chunks(t.tape))
+                spans=list(dev.spans), accepted=dev.accepted, closed=dev.closed, cleaned=cleaned_chunks(t.tape),
+                g0=dev.g0 or b"", reacts=list(dev.reacts))
 
 
 def cleaned_chunks(tape):
@@ -283,9 +300,38 @@ def model_line(case, res):
     return f"run {loop} {which} {case['ivl']} {tape}"
 
 
+def sys_line(case, res):
+    """request for the CLOSED-system model (`sysRunI`: loop + causal device `Dev` + schedule with empty reads, real cleaner), or
+    None when the run is not of that shape: the device must be describable as g0 / one segment per credential line / ONE constant
+    reaction to a bare return that does not change its state (so: no bare return received while it waits for a password)"""
+    if res.get("blocked") or case.get("auth_bypass") or any(e[0] == "E" for e in res["tape"]):
+        return None
+    segs, rets, pend = [], [], None
+    for st, data, out in res["reacts"]:
+        if data == b"\n":
+            if pend is not None:
+                segs.append(pend + out)
+                pend = None
+            else:
+                if st in ("pass", "phrase", "kick", "closed", "init"):
+                    return None
+                rets.append(out)
+        else:
+            if pend is not None or b"\n" in data:
+                return None
+            pend = out
+    if pend is not None or len(set(rets)) > 1:
+        return None
+    loop = LOOPS[(case["flavour"], case["stack"])]
+    which = ("d" if case.get("drvprompt") == "c" else "g") if case.get("via") == "driver" else ("d" if case.get("build") == "driver" else "c")
+    hx = lambda b: hexs(b) if b else "."
+    sched = ",".join(f"r{len(e[1])}@{e[2]}" if e[1] else f"i@{e[2]}" for e in res["tape"]) or "."
+    return f"sys {loop} {which} {case['ivl']} {hx(res['g0'])} {';'.join(hx(g) for g in segs) or '-'} {hx(rets[0]) if rets else '.'} {sched}"
+
+
 def model_view(line, case):
     """(status, nread, expected byte writes [(read index, bytes)])"""
-    status, nread, log = line.split(" ")
+    status, nread, log = line.split(" ")[:3]
     u, p, h = creds(case)
     cred = {"U": u, "P": p, "H": h}
     writes = []
@@ -342,7 +388,7 @@ def in_domain(case, pats):
     if d.get("passphrase") is not None:
         shown.append(d.get("phrase_prompt", PHRASE_PROMPTS[0]))
     for txt in shown:
-        low = strip_ansi_text(B(txt)).lower()
+        low = strip_ansi_text(B(txt).replace(b"\r", b"")).lower()
         if any(pp.search(low[:i]) for i in range(1, len(low) + 1)):
             return False     # a prefix of a login prompt already looks like a shell prompt (e.g. `admin@` for GenericDriver): C02/F10
     u, p, h = creds(case)
@@ -434,6 +480,14 @@ def oracle(case, res):
     oc = res["outcome"]
     if oc.startswith("other:"):
         out.append(f"login raised a non-scrapli / unexpected exception: {oc}")
+    # the kick: at most one bare return per return interval (oracle side of kicks_rate_bounded); a kick is a return written at a
+    # read at which no credential was written
+    if case["flavour"] == "telnet" and not any(e[0] == "E" for e in res["tape"]) and not case.get("prev"):
+        cred_reads = {n for n, w in res["writes"] if w != b"\n"}
+        kicks = sum(1 for n, w in res["writes"] if w == b"\n" and n not in cred_reads)
+        tmax = max([e[2] for e in res["tape"] if e[0] == "c"], default=0)
+        if kicks and not case["ivl"] * kicks < tmax:
+            out.append(f"{kicks} bare returns written within {tmax} time units (return interval {case['ivl']}): more than one per interval")
     exp = expected(case)
     if exp == "done":
         if oc != "done":
@@ -525,8 +579,27 @@ def connerr_match(case, res, viol):
     return None
 
 
+FID_LAG = "C09-lag-kick"   # an EMPTY read after the return interval while the password prompt is on its way => empty password
+
+
+def lag_match(case, res):
+    """narrow predicate of C09-lag-kick: telnet; a scripted EMPTY read (lag_at: output was on its way) was answered with exactly one
+    bare return, and that return reached the device while it was waiting for the password / passphrase"""
+    if case["flavour"] != "telnet" or not case.get("lag_at"):
+        return None
+    lag = {int(k) for k in case["lag_at"]}
+    wi = 0
+    for st, data, _out in res.get("reacts", []):
+        n = res["writes"][wi][0] if wi < len(res["writes"]) else None
+        wi += 1
+        if data == b"\n" and st in ("pass", "phrase") and n in lag and res["tape"][n - 1][:2] == ("c", b"") \
+                and [w for i, w in res["writes"] if i == n] == [b"\n"]:
+            return FID_LAG
+    return None
+
+
 def matcher(case, res, pats, viol=()):
-    return finding_match(case, res, pats) or kick_match(case, res) or connerr_match(case, res, list(viol))
+    return finding_match(case, res, pats) or kick_match(case, res) or connerr_match(case, res, list(viol)) or lag_match(case, res)
 
 
 # ------------------------------------------------------------------ generators
@@ -881,6 +954,68 @@ def gen_random(rng, stream):
     return case
 
 
+SEQS = ["\x1b[0m", "\x1b[1;32m", "\x1b[2J", "\x1b[K", "\x1b]0;r1\x07", "\x1b7", "\x1b8", "\x1bM", "\x1bE", "\x1b[?25h", "\x1b[10;20H",
+        "\x1b]2;router one\x07", "\x1b[38;5;208m"]
+
+
+def decorate(rng, txt, nseq, ncr):
+    """`txt` with `nseq` COMPLETE escape sequences put between its characters and `ncr` carriage returns put anywhere (also inside
+    the sequences): what `Decor` of the Lean theorems describes"""
+    cut = sorted(rng.randint(0, len(txt)) for _ in range(nseq))
+    out, prev = "", 0
+    for i in cut:
+        out += txt[prev:i] + rng.choice(SEQS)
+        prev = i
+    out += txt[prev:]
+    for _ in range(ncr):
+        i = rng.randint(0, len(out))
+        out = out[:i] + "\r" + out[i:]
+    return out
+
+
+def decor_cases(tier, rng):
+    """login dialogues DECORATED with carriage returns and complete escape sequences in every text the device prints (banners,
+    each prompt, the shell prompt), read in 1-byte reads / random cuts (so every sequence is cut everywhere), with empty reads at
+    time 0 thrown in (telnet) or at any time (ssh: no kick); each decorated dialogue next to its undecorated twin"""
+    out = []
+    n = 40 if tier == "quick" else 600
+    for i in range(n):
+        flavour, stack = ("telnet", "ssh")[i % 2], ("sync", "async")[(i // 2) % 2]
+        plain = dict(shell_prompt=rng.choice(SHELLS[:2] + ["r1#"]), banner=rng.choice(POST_CLEAN[:5]), pre=rng.choice(PRE_CLEAN[:4]) if flavour == "telnet" else rng.choice(SSH_WARN[:2]))
+        if flavour == "telnet":
+            plain.update(user_prompt=rng.choice(USER_PROMPTS[:5]), pass_prompt=rng.choice(PASS_PROMPTS), max_tries=3, after_max="reprompt")
+        else:
+            plain.update(pass_prompt=rng.choice(SSH_PASS_PROMPTS))
+            if rng.random() < 0.3:
+                plain.update(passphrase="keypass", phrase_prompt=rng.choice(PHRASE_PROMPTS))
+        bad = rng.random() < 0.25
+        for twin in ("plain", "decor"):
+            dev = dict(plain)
+            if twin == "decor":
+                for k in ("pre", "banner", "user_prompt", "pass_prompt", "phrase_prompt", "shell_prompt"):
+                    if dev.get(k):
+                        dev[k] = decorate(rng, dev[k], rng.randint(0, 3), rng.randint(0, 3))
+            c = base_case(flavour, stack, **dev)
+            if bad:
+                c["creds"]["password"] = "wr0ng"
+            c["cuts"] = rng.choice([["one"], ["one"], ["list", [rng.choice([1, 2, 3, 5, 8]) for _ in range(60)]], ["all"]])
+            c["build"] = rng.choice(["args", "driver"])
+            c["twin"] = (i, twin)
+            if rng.random() < 0.5:
+                c["lag_at"] = {str(rng.randint(1, 40)): (0 if flavour == "telnet" else rng.choice([0, 3])) for _ in range(rng.randint(1, 3))}
+            out.append(c)
+    # kicks inside the closed-system correspondence: the first read is EMPTY after the return interval (nothing has arrived
+    # yet), the console re-prompts on the empty line; read whole, both prompts are answered once
+    for stack in ("sync", "async"):
+        for up in USER_PROMPTS[:4]:
+            for dt in (2, 5):
+                c = base_case("telnet", stack, user_prompt=up, banner="Welcome\n")
+                c["lag_at"] = {"1": dt}
+                c["build"] = "driver" if dt == 5 else "args"
+                out.append(c)
+    return out
+
+
 def driver_cases():
     out = []
     for stack in ("sync", "async"):
@@ -1015,7 +1150,10 @@ def run(tier, seed):
                   "asyncio.sleep(0.1) of the async loops replaced by a bare yield)",
                   "the timeout decorator is bypassed (loops called through __wrapped__ or timeout 0): 'would run into the timeout' = SimStall"]
     ck.assumptions = ["Channel.read's cleaner is C01/C02's Lean model chanReadH (escape sequences incl. the hold-back across reads); the "
-                      "invariant theorems hold for every cleaner, the closed-system theorems for dialogues without escape sequences",
+                      "invariant theorems hold for every cleaner; the closed-system theorems *_decorated are proved for chanReadH itself (text decorated "
+                      "with CRs and complete escape sequences of <= 256 bytes without a second ESC inside)",
+                      "closed-system correspondence: devices describable as g0 / one segment per credential line / one constant, state-preserving "
+                      "reaction to a bare return (other runs are compared on the read tape only)",
                       "device reacts only to written bytes and answers instantly; time passes only during empty reads",
                       "dialogues whose banner has a whole line matching a credential pattern, or a line prefix matching the shell prompt "
                       "pattern, are outside the property (advisory: model/code agreement only)",
@@ -1030,7 +1168,7 @@ def run(tier, seed):
     except Exception as e:
         ck.proof_broken("translator gen/c09.py", repr(e))
     # 2 prove
-    ck.prove("ScrapliProps.C09", lemma_files=["ScrapliProps/C09Lemmas.lean", "ScrapliModel/Auth.lean", "ScrapliModel/AuthPat.lean"])
+    ck.prove("ScrapliProps.C09", lemma_files=["ScrapliProps/C09Lemmas.lean", "ScrapliProps/C09Decor.lean", "ScrapliModel/Auth.lean", "ScrapliModel/AuthPat.lean"])
     if tier == "thorough":
         ck.leanchecker("ScrapliProps.C09")
     pats = real_patterns()
@@ -1051,6 +1189,8 @@ def run(tier, seed):
         cases.append(c); streams.append("longbanner")
     for c in lockhist_cases(tier, ck.rng):
         cases.append(c); streams.append("lockhist")
+    for c in decor_cases(tier, ck.rng):
+        cases.append(c); streams.append("decor")
     nrand = 1500 if tier == "quick" else 30000
     for i in range(nrand):
         st = "clean" if i % 10 < 5 else ("prefixy" if i % 10 < 8 else "outdomain")
@@ -1065,6 +1205,13 @@ def run(tier, seed):
     syn_base = len(lines)
     for reqs, _w, _src, _st in syn:
         lines += reqs
+    # the CLOSED-system model (sysRunI of the new theorems): loop + causal device + schedule, for every run of that shape
+    sys_pos = {}
+    for i, (c, r) in enumerate(zip(cases, results)):
+        sl = sys_line(c, r)
+        if sl is not None:
+            sys_pos[i] = len(lines)
+            lines.append(sl)
     try:
         mout = run_model("C09", lines)
     except Exception as e:
@@ -1072,7 +1219,7 @@ def run(tier, seed):
         mout = None
     # 6 known finding: replay the stored witness
     for f in ck.findings:
-        if f["id"] in (FID, FID_KICK, FID_ERR) and f.get("status") == "open":
+        if f["id"] in (FID, FID_KICK, FID_ERR, FID_LAG) and f.get("status") == "open":
             wc = f["witness"]["case"]
             r = (run_real_sync(wc, divisor) if wc["stack"] == "sync" else asyncio.run(run_real_async(wc, divisor)))
             if oracle(wc, r) and matcher(wc, r, pats, oracle(wc, r)) == f["id"]:
@@ -1118,6 +1265,46 @@ def run(tier, seed):
                     adv_dis += 1
             else:
                 ck.traces_validated += 1
+    # closed-system correspondence: the model's device + loop + schedule reproduce the real run (outcome, reads, every write)
+    nsys = ndec = nidle = nkick = 0
+    if mout is not None:
+        for i, pos in sys_pos.items():
+            case, res = cases[i], results[i]
+            status, nread, mw = model_view(mout[pos], case)
+            got = (res["outcome"], len(res["tape"]), res["writes"])
+            if (status, nread, mw) != got:
+                ck.disagree("closed-system model (sysRunI: login loop + causal device + read schedule, real cleaner) vs real login over the device",
+                            {"case": case}, f"impl={got[0]} reads={got[1]} writes={[(n, S(w)) for n, w in got[2]]} model={mout[pos]} request={lines[pos][:400]}")
+            else:
+                ck.traces_validated += 1
+                nsys += 1
+                raw = b"".join(e[1] for e in res["tape"] if e[0] == "c")
+                ndec += 1 if (b"\x1b" in raw or b"\r" in raw) else 0
+                nidle += 1 if any(e[0] == "c" and not e[1] for e in res["tape"]) else 0
+                nkick += 1 if any(w == b"\n" and (k == 0 or res["writes"][k - 1][0] != n or res["writes"][k - 1][1] == b"\n")
+                                  for k, (n, w) in enumerate(res["writes"])) else 0
+    ck.extra["closed_system_runs_compared"] = {"agree": nsys, "of": len(sys_pos), "decorated(CR/ESC)": ndec, "with_empty_reads": nidle, "with_kicks": nkick}
+    # decoration independence observed on the real code (oracle side of login_decoration_independent): a decorated dialogue and its
+    # undecorated twin end the same way and type the same bytes
+    twins = {}
+    for case, res in zip(cases, results):
+        if case.get("twin"):
+            twins.setdefault(case["twin"][0], {})[case["twin"][1]] = (case, res)
+    ntw = 0
+    for tw in twins.values():
+        if len(tw) == 2:
+            (cp, rp), (cd, rd) = tw["plain"], tw["decor"]
+            if not (in_domain(cp, pats) and in_domain(cd, pats)):
+                continue
+            a = (rp["outcome"], [w for _, w in rp["writes"]])
+            b = (rd["outcome"], [w for _, w in rd["writes"]])
+            ntw += 1
+            if a != b and "running" not in (a[0], b[0]):
+                ck.violation({"case": cd, "twin": cp, "plain": [a[0], [S(w) for w in a[1]]], "decorated": [b[0], [S(w) for w in b[1]]]},
+                             f"{cd['flavour']} {cd['stack']} login: carriage returns / escape sequences in the device output change the login: "
+                             f"undecorated {a[0]} {[S(w) for w in a[1]]}, decorated {b[0]} {[S(w) for w in b[1]]}",
+                             lambda rec_, c=cd, r=rd: matcher(c, r, pats, ["x"]))
+    ck.extra["decoration_twins_compared"] = ntw
     # dispatch facts observed through driver.open(): bypass => nothing written, nothing read
     for case, res in zip(cases, results):
         if case.get("via") == "driver" and case.get("auth_bypass") and (res["writes"] or res["tape"]):
